@@ -1,17 +1,180 @@
 """C02 -- partition-improving algorithms keep a valid partition valid."""
+import os, re, struct, sys
+sys.path.insert(0, os.path.dirname(os.path.dirname(os.path.abspath(__file__))))
+from translate_lib import read, fn_body, Fail, HEADER, coq_bool
+
+
+def _bits(x):
+    return struct.unpack("<Q", struct.pack("<d", x))[0]
+
+
+def _norm(t):
+    """comments removed, runs of white space collapsed"""
+    t = re.sub(r"//[^\n]*", "", t)
+    return re.sub(r"\s+", " ", t)
+
+
+def _need(text, frag, what):
+    if _norm(frag) not in text:
+        raise Fail("k_means: fragment not recognised: " + what)
+
+
+def _op(text, pat, what):
+    m = re.search(pat, text)
+    if not m:
+        raise Fail("k_means: guard not recognised: " + what)
+    return m.group(1)
+
+
+# ------------------------------------------------- k-means: literals, operators and guard shapes of
+# src/algorithms/k_means.rs and of the helpers of src/geometry.rs it calls (Model/KMeans.v mirrors them)
+def gen_kmeans():
+    out = HEADER.format(src="src/algorithms/k_means.rs, src/geometry.rs")
+    out += "From Coq Require Import NArith List.\nImport ListNotations.\n"
+    km = read("src/algorithms/k_means.rs")
+    geo = read("src/geometry.rs")
+    fns = {}
+    for name in ("imbalance", "balanced_k_means_with_initial_partition", "balanced_k_means_iter", "assign_and_balance",
+                 "relax_bounds", "best_values", "erosion", "max_distance", "partition"):
+        b = fn_body(km, name)
+        if b is None:
+            raise Fail("k_means.rs: fn %s not found" % name)
+        fns[name] = _norm(b)
+    gfn = {}
+    for name in ("from_points", "center", "contains", "distance_to_point"):
+        b = fn_body(geo, name)
+        if b is None:
+            raise Fail("geometry.rs: fn %s not found" % name)
+        gfn[name] = _norm(b)
+    # `fn center` occurs twice in geometry.rs (BoundingBox::center first); the free function is the last one
+    i = geo.rfind("fn center<const D: usize>(points: &[PointND<D>])")
+    if i < 0:
+        raise Fail("geometry.rs: pub(crate) fn center(points) not found")
+    gcenter = _norm(fn_body(geo[i:], "center"))
+
+    # ---- literals (they flow into the binary64 instance of the model)
+    bv = fns["best_values"]
+    _need(bv, "let mut best_value = std::f64::MAX;", "best_value starts at f64::MAX")
+    _need(bv, "let mut snd_best_value = std::f64::MAX;", "snd_best_value starts at f64::MAX")
+    init = fns["balanced_k_means_with_initial_partition"]
+    _need(init, "points.par_iter().map(|_| std::f64::MAX).collect()", "ubs start at f64::MAX")
+    _need(init, "points.par_iter().map(|_| 0.).collect()", "lbs start at 0.")
+    _need(init, "centers.par_iter().map(|_| 1.).collect()", "influences start at 1.")
+    _need(gfn["from_points"], "PointND::<D>::from_element(std::f64::MAX), PointND::<D>::from_element(std::f64::MIN),",
+          "bounding box fold starts at (MAX, MIN)")
+    fmax = float.fromhex("0x1.fffffffffffffp+1023")
+    out += "Definition km_fmax_bits : N := %d%%N.\n" % _bits(fmax)
+    out += "Definition km_fmin_bits : N := %d%%N.\n" % _bits(-fmax)
+    m = re.search(r"let eps = ([0-9.]+) \* std::f64::EPSILON;", gfn["contains"])
+    if not m:
+        raise Fail("geometry.rs contains: `let eps = <literal> * std::f64::EPSILON` not found")
+    out += "Definition km_eps_bits : N := %d%%N.\n" % _bits(float(m.group(1)) * 2.0 ** -52)
+    m = re.search(r"let max_diff = ([0-9.]+) \* \*influence;", fns["assign_and_balance"])
+    if not m:
+        raise Fail("assign_and_balance: `let max_diff = <literal> * *influence` not found")
+    out += "Definition km_step_bits : N := %d%%N.\n" % _bits(float(m.group(1)))
+
+    # ---- operators and guard shapes: true = as modelled
+    flags = []
+
+    def flag(name, val):
+        flags.append(name)
+        return "Definition %s : bool := %s.\n" % (name, coq_bool(val))
+
+    ab = fns["assign_and_balance"]
+    out += flag("km_lb_lt_ub", _op(ab, r"if lb (<=|<|>=|>) ub \{", "if lb < ub") == "<")
+    out += flag("km_best_strict", _op(bv, r"if effective_distance (<=|<|>=|>) best_value \{ assignment = Some\(\*id\); "
+                r"snd_best_value = best_value; best_value = effective_distance; \}", "best update") == "<")
+    out += flag("km_snd_strict", _op(bv, r"else if effective_distance (<=|<|>=|>) snd_best_value \{ snd_best_value = effective_distance; \}",
+                "second best update") == "<")
+    out += flag("km_early_break", _op(bv, r"if \*distance_to_mbr (<=|<|>=|>) snd_best_value && settings\.mbr_early_break \{ break; \}",
+                "early break") == ">")
+    out += flag("km_effective_distance", "let effective_distance = (center - point).norm() * influence;" in bv)
+    out += flag("km_best_result", bv.rstrip(" }").endswith("(snd_best_value, best_value, assignment)"))
+    out += flag("km_tol_strict", _op(ab, r"if imbalance\(&new_weights\) (<=|<|>=|>) settings\.imbalance_tol \{ return; \}",
+                "imbalance test") == "<")
+    out += flag("km_balance_loop", "for _ in 0..settings.max_balance_iter {" in ab)
+    out += flag("km_target_weight", "let target_weight = weights.par_iter().sum::<f64>() / (centers.len() as f64);" in ab)
+    out += flag("km_influence_update", _norm(
+        "let ratio = target_weight / weight; let max_diff = 0.05 * *influence; "
+        "let new_influence = *influence / ratio.sqrt(); "
+        "if (*influence - new_influence).abs() < max_diff { *influence = new_influence; } "
+        "else if new_influence > *influence { *influence += max_diff; } else { *influence -= max_diff; }").replace("0.05", m.group(1)) in ab)
+    out += flag("km_mbr_sort", "par_sort_by(|(_, d1), (_, d2)| d1.partial_cmp(d2).unwrap_or(Ordering::Equal))" in ab
+                and "obb.distance_to_point(center) * influence" in ab)
+    out += flag("km_write", "if let Some(new_assignment) = new_assignment {" in ab
+                and "std::ptr::write(ptr.add(*idx), new_assignment);" in ab and "*lb = new_lb; *ub = new_ub;" in ab)
+    it = fns["balanced_k_means_iter"]
+    keep = "if points.is_empty() { return *old_center; } geometry::center(&points)"
+    out += flag("km_keep_empty_center", keep in ab and keep in it)
+    mstop = re.search(r"if !\(\*delta_max (<=|<|>=|>) settings\.delta_threshold \|\| current_iter == 0\) \{ relax_bounds\(", it)
+    if not mstop:
+        raise Fail("balanced_k_means_iter: the stop test `!(*delta_max < settings.delta_threshold || current_iter == 0)` not found")
+    out += flag("km_stop_test", mstop.group(1) == "<" and "current_iter - 1," in it)
+    out += flag("km_delta_max", ".max_by(|d1, d2| d1.partial_cmp(d2).unwrap_or(Ordering::Equal)) .unwrap();" in it
+                and ".map(|(c1, c2)| (c1 - c2).norm())" in it)
+    rb = fns["relax_bounds"]
+    out += flag("km_relax_bounds", "*ub += distance * influence;" in rb and "*lb -= max_distance_influence_ratio;" in rb
+                and ".map(|(distance, influence)| distance * influence)" in rb and ".unwrap_or(0.);" in rb)
+    out += flag("km_imbalance", "(Some(min), Some(max)) => max - min, _ => 0.," in fns["imbalance"])
+    out += flag("km_erosion", "2. / (1. + (-distance_moved / average_cluster_diameter).min(0.).exp()) - 1." in fns["erosion"]
+                and "*influence = influence.log(10.) * (1. - erosion(*distance, average_diameters)).exp()" in it)
+    out += flag("km_unsound_panic", "if current_num_parts != expected_num_parts { panic!(" in init
+                and ".iter() .cloned() .unique() .collect::<Vec<_>>();" in init)
+    pt = fns["partition"]
+    out += flag("km_part_count", "let num_partitions = 1 + *part_ids.par_iter().max().unwrap_or(&0); if num_partitions < 2 { return Ok(()); }" in pt)
+    # the `hilbert` setting is copied into the settings and never read
+    nc = re.sub(r"//[^\n]*", "", km)
+    out += flag("km_hilbert_unused", "settings.hilbert" not in nc and nc.count(".hilbert") == 1 and "hilbert: self.hilbert," in nc)
+    out += flag("km_geometry_center", "assert!(!points.is_empty()); let total = points.len() as f64; "
+                "points.par_iter().sum::<PointND<D>>() / total" in gcenter)
+    out += flag("km_bbox_fold", "if *val < *min { *min = *val; } if *max < *val { *max = *val; }" in gfn["from_points"]
+                and ".map(|(left, right)| left.min(*right))" in gfn["from_points"]
+                and ".map(|(left, right)| left.max(*right))" in gfn["from_points"])
+    out += flag("km_bbox_contains", ".all(|((min, max), point)| *point < *max + eps && *point > *min - eps)" in gfn["contains"])
+    dp = gfn["distance_to_point"]
+    out += flag("km_bbox_distance", "if point > max { *max } else if point < min { *min } else { *point }" in dp
+                and "if point > center { (max - point).abs() } else { (min - point).abs() }" in dp
+                and ".max_by(|a, b| a.partial_cmp(b).unwrap()) .unwrap()" in dp and "clamped.norm()" in dp)
+    out += flag("km_obb", "let obb_to_aabb = aabb_to_obb.try_inverse().unwrap();" in _norm(geo)
+                and "let mapped = points.par_iter().map(|p| obb_to_aabb * p); let aabb = BoundingBox::from_points(mapped)?;" in _norm(geo)
+                and "self.aabb.distance_to_point(&(self.obb_to_aabb * point))" in _norm(geo)
+                and "let obb = OrientedBoundingBox::from_points(points).unwrap();" in ab)
+    out += "Definition km_source_shape : list bool :=\n  [%s].\n" % "; ".join(flags)
+    return out
+
+
+GENERATORS = {"KMeansGen.v": gen_kmeans}
+
 PROP = dict(
     bin="c02",
-    run_targets=["Run/RunC02.vo"],
+    run_targets=["Run/RunC02.vo", "Run/RunKM.vo"],
+    extra_bins=[dict(bin="c02km", cases=dict(quick=640, thorough=3200))],
     prop_targets=["Properties/C02.vo"],
     cases=dict(quick=3500, thorough=40000),
     level="proof",
     release_quick=3,
     rule="7 entry points in rotation (VnBest, VnFirst, KMeans 2D/3D, FiducciaMattheyses, KernighanLin, ArcSwap) x valid initial "
          "partitions with 1..8 parts (two-way algorithms: 1..2; one-sided and unbalanced included) x 6 weight families x 8 point "
-         "families x 6 graph families (random, grid, path, star, disconnected, cycle) x parameter choices (pass/move limits incl. "
+         "families x 6 graph families (random, grid, path, star, disconnected, cycle) + a HUB family (harness/src/hub.rs: star / wheel / complete "
+         "bipartite hub with 9..40 spokes, every spoke or every second spoke alone in its own part, 10..41 parts; 1 ArcSwap case in 12, "
+         "and the same many-part partitions for 1 VnBest / VnFirst / KMeans case in 40) x parameter choices (pass/move limits incl. "
          "0 and None, imbalance caps, k-means iteration limits) x rayon pool in {1,2,3,4,8,16}; distinct = distinct (algorithm, "
-         "pool, parameters, input); non-trivial = at least 3 elements and 2 parts",
-    class_names={0: "vnbest", 1: "vnfirst", 2: "kmeans2", 3: "kmeans3", 4: "fm", 5: "kl", 6: "arcswap"},
+         "pool, parameters, input); non-trivial = at least 3 elements and 2 parts. "
+         "K-MEANS MODEL CASES (second binary c02km, 640 / 3200 cases): KMeans 2D/3D on four streams -- exact (integer coordinates "
+         "and weights, 3/5 with a power-of-two point count), fractional (C02 clauses only), large (100..3000 points, implementation "
+         "only), outside the contract (gap in the ids, fewer points or fewer weights than ids; compared with the model, not judged) "
+         "-- x 7 point families x 6 weight families x initial partitions (random valid, one-sided, blocks, round robin) x max_iter "
+         "in {0,1,2,3,5,8} x max_balance_iter in {0..4} x imbalance_tol in {0,0.01,1,5,50,1e9} x delta_threshold in {0,0.01,1,100} x "
+         "erode / hilbert / mbr_early_break flags; EVERY case runs under pools 1,2,3,4,8,16 twice; the model (binary64, vm_compute) "
+         "is compared with all twelve final partitions and, through runs with max_iter = 0..max_iter-1, with the assignments after "
+         "every outer iteration, when the input is integer valued, erode is off and the rotation matrix "
+         "recomputed by the harness equals the implementation's own box under every pool (ZCurve hook); non-trivial additionally "
+         "needs max_iter >= 1 and max_balance_iter >= 1",
+    class_names={0: "vnbest", 1: "vnfirst", 2: "kmeans2", 3: "kmeans3", 4: "fm", 5: "kl", 6: "arcswap",
+                 100: "k-means model cases: not compared with the model (fractional / large / erode / rotation not validated)",
+                 101: "k-means model cases: model = implementation, schedule-sensitivity flag raised",
+                 102: "k-means model cases: model = implementation, no flag (every schedule of the model gives this partition)"},
     trusted_base=[
         "axioms: C02_arcswap_partial (ArcSwap with the f64 share the code computes) imports C05's Flocq-based theorem that the "
         "f64 share is the exact quotient below 2^53 and therefore uses the axioms of Coq's classical real numbers "
@@ -19,7 +182,17 @@ PROP = dict(
         "FunctionalExtensionality.functional_extensionality_dep, Classical_Prop.classic); every other theorem of "
         "Properties/C02.v, C02_arcswap_exact_share_partial included, is closed under the global context",
         "Flocq 4.1 (through Proofs/ArcSwapShare.v, for C02_arcswap_partial only)",
-        "KMeans: only an ABSTRACT model (the numeric core is an oracle); its arithmetic is not verified",
+        "KMeans: CONCRETE model Model/KMeans.v (k_means.rs and the geometry.rs helpers line by line, generic over the arithmetic, "
+        "binary64 instance on Coq's SpecFloat with the literals read by the translator); C02_kmeans (binary64, every schedule, "
+        "every setting, any weights: Ok, length kept, ids of the input) is axiom-free; the rotation matrix obb_to_aabb "
+        "(nalgebra symmetric_eigen + Householder + try_inverse) is an INPUT of the model (any matrix with at least one row; "
+        "`try_inverse() = None` is a panic site outside the theorem), recomputed by the harness with the same nalgebra calls and "
+        "validated per case against the box the implementation builds (ZCurve hook); f64::log / exp (erode) are arbitrary "
+        "functions in the theorems and not compared in the runs; model = code is checked on the assignments after every outer "
+        "iteration (runs with smaller max_iter) and on the final partitions, not on influences / bounds themselves (no hook "
+        "exports them), translator: 4 literals + 26 guard / operator shapes (C02_kmeans_source_shape)",
+        "k-means runs: usize overflow of `1 + max id` and more than 20 clusters (rayon's par_sort_by switches from insertion to "
+        "merge sort: same result unless a distance is NaN) are not modelled",
         "the per-algorithm theorems for VnBest/VnFirst/FM/KL/ArcSwap are derived from the property theorems of Properties/C14, C07, C15, C05 "
         "(by name; Proofs/C02Collect.v; KL at the flags of Gen/KlGen.v, for either edge_cut function) and are tied to the code by those checks; this check itself runs the implementation only (panic / hang / "
         "length / id bound)",
@@ -48,13 +221,16 @@ MANIFEST = dict(
          "oracle exists), KernighanLin (PARTIAL: at most two part ids; labels only permuted), ArcSwap (every reachable state "
          "under every schedule: length kept, ids below part_count; PARTIAL no-panic / no-deadlock / well-founded stepping / "
          "completion for the f64 share of the code when |cap| + total weight < 2^53 -- classical-reals axioms -- and for the "
-         "exact share without bound); k-means only through an abstract model whose "
-         "numeric core is an arbitrary oracle (for EVERY oracle the output keeps its length and uses only ids of the input). "
+         "exact share without bound); KMeans (FULL, concrete binary64 model mirroring k_means.rs, every family of split trees, every "
+         "setting, any weights, rotation matrix as input: a valid partition with as many points as ids gives Ok, same length, ids of "
+         "the input only; the model is compared bit for bit with the implementation's final partition under six pools twice). "
          "Plus a run of all six algorithms on valid partitions under six pool sizes with overflow checks and debug assertions "
          "on, every output judged by the exact validity checker; panics and hangs are violations. KernighanLin on more than "
          "two parts is a known finding (unimplemented!).",
     design_ref="DESIGN.md §7 C02",
-    note="PARTIAL for KMeans (oracle model), KernighanLin (two part ids) and ArcSwap's no-hang clause (weights below 2^53 for the code's f64 share). This "
-         "check does not evaluate a model per case; the models are compared in C05/C07/C14/C15.",
-    technique="Coq proof (per-algorithm validity theorems; abstract oracle model for k-means) + certified validity checker on implementation runs",
+    note="PARTIAL for KernighanLin (two part ids) and ArcSwap's no-hang clause (weights below 2^53 for the code's f64 share); KMeans is "
+         "proved for its concrete model with the rotation matrix as an input (nalgebra's eigen-decomposition is not modelled). The main "
+         "binary does not evaluate a model per case (the models of the other algorithms are compared in C05/C07/C14/C15); the k-means "
+         "binary c02km evaluates Model/KMeans.v on every integer-valued case.",
+    technique="Coq proof (per-algorithm validity theorems; concrete executable k-means model compared with the implementation) + certified validity checker on implementation runs",
 )
